@@ -96,7 +96,11 @@ def _contact(draw):
             "spring": draw(st.booleans()), "k": draw(gen.f(1, 30))}
     spec["reject"] = draw(st.sampled_from([None, None, None, "penetration", "approaching"]))
     # the whole scene (plane, spheres, gravity) is placed by a rotation up to pi: the plane normal points anywhere
-    spec["placement"] = draw(gen.rotvec(min_exp=-1, near_max=False)) if draw(st.booleans()) else [0.0, 0.0, 0.0]
+    spec["placement"] = draw(st.one_of(
+        st.just([0.0, 0.0, 0.0]), gen.rotvec(min_exp=-1, near_max=False),
+        # ceiling, walls, and an incline whose normal has only non-positive components
+        st.sampled_from([[3.141592653589793, 0.0, 0.0], [0.0, -1.5707963267948966, 0.0], [1.5707963267948966, 0.0, 0.0],
+                         [2.2, 0.6, 0.0], [2.6, -0.9, 0.3]])))
     if draw(st.integers(0, 3)) == 0:
         # the plane tilts in time about an in-plane axis (theta(0) = 0); the spheres move with it. Frictionless only: the
         # slip kinematics of Sphere2Plane are stated for planes of constant orientation (C06)
